@@ -7,6 +7,7 @@
                                   (one permutation per call of the oracle); exact=1 unless more than
                                   <cap> runs would be needed (then reach is a subset)
                            one=   one_error cutoff P
+     det PROG              THE outcome of the implementation: resolve sort_oracle (Model/Determinism.v)
      fronts <n> <k> name*k PROG   outcomes of resolve under seed_oracle 0..n-1 and under front_oracle f
                            (the oracle that puts f first every time it is asked) for the k given names
      natnames PROG         index=name,name,... : what compiler.Program.nativeFuncNames[index] can hold
@@ -186,6 +187,10 @@ let handle = function
       let (reach, exact) = enumerate_oracles (int_of_string cap) fix_first (fun pi -> res_string p (resolve pi p)) in
       Printf.sprintf "all= %s ;; reach= %s ;; exact=%s one=%s"
         (String.concat " | " all) (String.concat " | " reach) (string_of_bool exact) (string_of_bool (one_error cutoff p))
+  | "det" :: toks ->
+      (* the implementation since the repair of F-C19-1/2: the keys of every map sorted before use *)
+      let p = p_prog toks in
+      res_string p (resolve sort_oracle p)
   | "fronts" :: n :: k :: toks ->
       let n = int_of_string n and k = int_of_string k in
       let (fronts, toks) = p_names k toks in
